@@ -11,6 +11,10 @@ UmGen/HostileCfg.lean (namespace Um.Gen.Hostile):
     list is empty (the F16a fix, /verif/.build/patches/f16a.diff);
   * `slowlogBoundarySafe` — `get_brief_command` truncates on a char boundary (the F16c fix,
     /verif/.build/patches/f16c.diff);
+  * `rangeMapBounded` — `impl From<&RangeList> for RangeMap` guards `min_slot <= max_slot` and walks each
+    range only up to `SLOT_NUM - 1` (the F16e fix, /verif/.build/patches/f16e.diff);
+  * `compressedCompact` — `ProxyClusterMeta::from_resp` compacts the range lists of a compressed
+    (serde) `UMCTL SETCLUSTER` (/verif/.build/patches/C14-compressed-meta-compact.diff);
   * `overflowChecks` — `[profile.release] overflow-checks` of /repo/Cargo.toml (absent ⇒ `false`:
     `3 + key_num` wraps);
   * constants: `CLUSTER_NAME_MAX_LENGTH`, `MAX_ELEMENT_LENGTH`, `LOG_ELEMENT_NUMBER`,
@@ -96,6 +100,33 @@ def gen_hostilecfg():
     out.append(f"def slowlogBoundarySafe : Bool := {_b(safe)}")
     out.append(f"def MAX_ELEMENT_LENGTH : Nat := {const_num(t, 'MAX_ELEMENT_LENGTH', p)}  -- {p}")
     out.append(f"def LOG_ELEMENT_NUMBER : Nat := {const_num(t, 'LOG_ELEMENT_NUMBER', p)}  -- {p}")
+    # --- RangeMap::from (F16e) and the compressed SETCLUSTER path (F16d) ---------------------------------
+    p = "src/common/cluster.rs"
+    t = src(p)
+    m = re.search(r"impl From<&RangeList> for RangeMap \{", t)
+    if not m:
+        raise ExtractError(f"{p}: impl From<&RangeList> for RangeMap not found")
+    rm = _sq(fn_body(t[m.end():], "from", p))
+    plain = ("(Some(min_slot), Some(max_slot)) => (min_slot, max_slot - min_slot + 1)," in rm
+             and "for slot_num in range.start()..=range.end() {" in rm)
+    fixed = ("(Some(min_slot), Some(max_slot)) if min_slot <= max_slot => { (min_slot, max_slot - min_slot + 1) }" in rm
+             and "for slot_num in range.start()..=std::cmp::min(range.end(), SLOT_NUM - 1) {" in rm)
+    if plain == fixed or "vec![false; map_len]" not in rm:
+        raise ExtractError(f"{p}: RangeMap::from has an unknown shape")
+    out.append(f"/-- `RangeMap::from` is total and walks at most SLOT_NUM slots per range (F16e fix) — {p} -/")
+    out.append(f"def rangeMapBounded : Bool := {_b(fixed)}")
+    p = "src/common/proto.rs"
+    tp = strip_comments(src(p))
+    i = tp.find("ProxyClusterMetaData::from_compressed_data(compressed_data)")
+    j = tp.find("return Ok((", i)
+    if i < 0 or j < 0:
+        raise ExtractError(f"{p}: compressed branch of ProxyClusterMeta::parse not found")
+    fr = _sq(tp[i:j])
+    cc = "slot_range.get_mut_range_list().compact();" in fr
+    if not cc and "compact" in fr:
+        raise ExtractError(f"{p}: compaction of the compressed form has an unknown shape")
+    out.append(f"/-- the compressed (serde) SETCLUSTER form is compacted like the textual one (C14 patch) — {p} -/")
+    out.append(f"def compressedCompact : Bool := {_b(cc)}")
     # --- constants ----------------------------------------------------------------------------------
     p = "src/common/cluster.rs"
     out.append(f"def CLUSTER_NAME_MAX_LENGTH : Nat := {const_num(src(p), 'CLUSTER_NAME_MAX_LENGTH', p)}  -- {p}")
